@@ -1,5 +1,6 @@
 import HapVerif.Model.C11
 import HapVerif.Generated.Facts
+import HapVerif.Props.C02Pair
 /-!
 # C11 — no needless reloads (slot arithmetic of `alignSlots`)
 
@@ -108,5 +109,19 @@ theorem align_static (b : Back) (minFree blockSize : Nat) (hd : b.dynUpdate = fa
 example : let b : Back := { eps := [mkEmpty "a" 1, mkEmpty "b" 1, mkEmpty "c" 1].map (fun e => { e with ip := "10.0.0.1" }),
                             dynUpdate := true, resolver := false, cookiePreserve := false }
     (alignSlots b 2 4).eps.length = 8 := by decide
+
+/-! ### "fits ⇒ no reload" and "no-op ⇒ no reload" (proved in `Props/C02Pair.lean`, restated for the audit) -/
+
+/-- an endpoint-only change that fits in the existing slots is applied without reload -/
+theorem fits_no_reload (old cur : Back) (hd : cur.dynUpdate = true) (hr : cur.resolver = false)
+    (hp : cur.cookiePreserve = false) (hf : fits old.eps cur.eps = true) :
+    (checkBackendPair old cur true []).updated = true := C02Pair.fits_no_reload old cur hd hr hp hf
+
+/-- a re-notification without change is neither a command nor (nothing else changed) a reload -/
+theorem noop_no_reload (old cur : Back) (same : Bool) (sc : List Resp) (hd : cur.dynUpdate = true)
+    (hr : cur.resolver = false) (hlen : cur.eps.length ≤ old.eps.length) (hO : hasDupTarget old.eps = false)
+    (hC : hasDupTarget cur.eps = false) (hn : C02Pair.noopB old.eps cur.eps = true) :
+    (checkBackendPair old cur same sc).updated = same ∧ (checkBackendPair old cur same sc).cmds = [] :=
+  C02Pair.noop_no_reload old cur same sc hd hr hlen hO hC hn
 
 end HapVerif.C11
